@@ -24,7 +24,7 @@ NAMES = ["a", "b", "c", "Ωμ", "x y", "a/b", "d.e", "", "名前", "a"]
 PG_NAMES = ["pg1", "pg2", "pg3"]
 
 MUTATORS = ["create_uid", "remove_many", "group", "object", "data", "values", "rename", "flag", "move", "copy", "remove", "pg_add",
-            "pg_remove_props", "pg_delete", "metadata", "file", "comment", "visual", "dhlog", "type_clash"]
+            "pg_remove_props", "pg_delete", "metadata", "file", "comment", "visual", "visual_edit", "dhlog", "type_clash"]
 CONTROL = ["reopen", "gc", "hold", "release", "observe"]
 
 
@@ -110,6 +110,9 @@ def op_strategy(kind: str, cfg: dict):
         return st.fixed_dictionaries({"op": st.just("dhlog"), "obj": idx, "name": name,
                                       "depths": st.lists(st.integers(0, 12), min_size=1, max_size=4, unique=True),
                                       "vals": small_ints(4, 4)})
+    if kind == "visual_edit":
+        return st.fixed_dictionaries({"op": st.just("visual_edit"), "obj": idx,
+                                      "rgb": st.lists(st.integers(0, 255), min_size=3, max_size=3)})
     if kind == "visual":
         return st.fixed_dictionaries({"op": st.just("visual"), "obj": idx})
     if kind == "remove":
@@ -161,7 +164,7 @@ DEFAULT_CFG = {
     "data_kinds": ["float", "int", "bool", "ref", "text"],
     "weights": {"group": 3, "object": 5, "data": 6, "values": 3, "rename": 2, "flag": 2, "move": 4, "copy": 4,
                 "remove": 4, "pg_add": 4, "pg_remove_props": 2, "pg_delete": 1, "metadata": 1, "file": 1,
-                "comment": 1, "visual": 1, "dhlog": 1, "type_clash": 0, "create_uid": 1, "remove_many": 1, "reopen": 3, "gc": 2, "hold": 1, "release": 1, "observe": 1},
+                "comment": 1, "visual": 1, "visual_edit": 1, "dhlog": 1, "type_clash": 0, "create_uid": 1, "remove_many": 1, "reopen": 3, "gc": 2, "hold": 1, "release": 1, "observe": 1},
     "ws2": True,
     "prefix": [],
     "prefixes": [],
@@ -1156,6 +1159,33 @@ class TreeRun:
         self.res.label("dhlog")
         self.touch()
         del ent, child
+        return True
+
+    def op_visual_edit(self, op):
+        """The colour stored in an object's visual parameters is changed (through whatever `obj.visual_parameters`
+        gives: for a copy made without children that must not be the source's)."""
+        wd = self.w
+        uid = self.pick(wd.of_kind("object"), op["obj"])
+        if uid is None:
+            return False
+        ent = wd.entity(uid)
+        vp = getattr(ent, "visual_parameters", None)
+        if vp is None:
+            return False
+        own = [c for c in wd.nodes[uid].get("children", []) if wd.nodes.get(c, {}).get("name") == "Visual Parameters"]
+        if str(vp.uid) not in own:
+            self.fail("C09", "visual-parameters-of-another-object", "visual_edit", wd.nodes[uid]["cls"], "",
+                      f"{uid}.visual_parameters is {vp.uid}, which is not a child of that object")
+            self.fail("C12", "copy-shares-visual-parameters", "visual_edit", wd.nodes[uid]["cls"], "",
+                      f"{uid}.visual_parameters is {vp.uid}, which is not a child of that object")
+            return True
+        self.targets.add(own[0])
+        self.parents.add(uid)
+        self.call("VisualParameters", setattr, vp, "colour", [int(v) for v in op["rgb"]])
+        wd.nodes[own[0]] = snap_entity(vp)
+        self.res.label("visual_edit")
+        self.touch()
+        del ent, vp
         return True
 
     def op_visual(self, op):
